@@ -34,6 +34,7 @@ class Def:
     params: List[Param]
     variants: List[Variant]
     derives: str = "Epserde, Clone, Debug"
+    extra_where: Optional[str] = None  # an additional where predicate on a field parameter
 
     @property
     def zero(self):
@@ -80,6 +81,8 @@ class Def:
 
     def where_decl(self):
         ws = [f"{p.name}: {p.bound}" for p in self.params if p.kind != "const" and p.bound and p.where]
+        if self.extra_where:
+            ws.append(self.extra_where)
         return (" where " + ", ".join(ws)) if ws else ""
 
     def item(self):
@@ -120,6 +123,8 @@ class Def:
                 b = base_bound
                 if p.bound:
                     b += " + " + p.bound
+                if self.extra_where and self.extra_where.startswith(p.name + ":"):
+                    b += " + " + self.extra_where.split(":", 1)[1].strip()
                 b += extra(p)
                 parts.append(f"{p.name}: {b}")
         return f"<{', '.join(parts)}>" if parts else ""
@@ -279,6 +284,9 @@ def curated():
         S("P64", [("x", "u16")], ("repr(C)", "repr(align(64))", "zero_copy")),
         S("NT", [("0", "u64")], ZC, style="tuple"),
         S("T3", [("0", "u8"), ("1", "u8"), ("2", "u8")], ZC, style="tuple"),
+        S("ZA", [("tag", "u8"), ("arr", "[u16; 2]"), ("val", "u32")], ZC),
+        S("ZB", [("a", "u8"), ("t", "(u16, u16)"), ("c", "u64"), ("e", "EU"), ("z", "u8")], ZC),
+        S("ZR", [("a", "u16"), ("r", "RangeTo<u32>"), ("arr", "[P1; 2]"), ("b", "u8")], ZC),
         S("ZN", [("p", "P1"), ("t", "T3"), ("f", "f64"), ("arr", "[u16; 3]"), ("ph", "PhantomData<u8>")], ZC),
         E("EZ", [V("A", "unit", []), V("B", "tuple", [("0", "u16")]), V("C", "named", [("x", "u8"), ("y", "u64")])], ZC),
         E("EU", [V("North", "unit", []), V("South", "unit", []), V("East", "unit", [])], ZC),
